@@ -37,6 +37,7 @@ Qed.
 
 Section CbPath.
 Variables (g : egraph) (top new var : Z) (preds Ss names : list name) (cls : Z) (g' : egraph).
+Variable strict : bool.   (* false: the reading of C01; true: the reading of C06 (a branching block reads its variable once per assignment) *)
 
 Hypothesis Hpreds : NoDup preds /\ ~ In new preds.
 Hypothesis Hnames : NoDup names /\
@@ -125,7 +126,7 @@ Proof.
 Qed.
 
 (* an arc that was not rerouted *)
-Lemma edge_same x t : Oldb t -> Edge h' r r' Fv Oldb x t t.
+Lemma edge_same x t : Oldb t -> Edge h' r r' strict Fv Oldb x t t.
 Proof.
   intros Ht e e' He. exists t, t, 0%nat, e'. split; [apply resolve_old; exact Ht|]. split; [exact Ht|].
   split; [apply resolve_old'; exact Ht|]. split; [exact He|]. intros fuel. reflexivity.
@@ -136,26 +137,31 @@ Lemma edge_bridge tbl x s a i :
   efind g' new = Some (mkE Ss [] (EBranch cls var tbl)) ->
   In s Ss -> In a names ->
   efind g' a = Some (mkE [new] [] (EAssign [(var, i)])) -> zassoc i tbl = Some s ->
-  Edge h' r r' Fv Oldb x s a.
+  Edge h' r r' strict Fv Oldb x s a.
 Proof.
   intros Hhead HsS Ha Hasg Htab e e' He.
   assert (Hs : Oldb s) by (apply HSs; exact HsS).
   destruct (proj2 Hnames a Ha) as [_ [_ [_ [_ Hat]]]].
-  exists s, a, 2%nat, (eupd [(var, i)] e').
+  exists s, a, 2%nat, (if strict then eread var i [] new (eupd [(var, i)] e') else eupd [(var, i)] e').
   split; [apply resolve_old; exact Hs|]. split; [exact Hs|].
   assert (Hfa : find h' a = Some (node_of top (a, mkE [new] [] (EAssign [(var, i)])))) by (apply find_h'; assumption).
   assert (Hfn : find h' new = Some (node_of top (new, mkE Ss [] (EBranch cls var tbl)))).
   { apply find_h'; [intros E0; apply (proj2 Htop); symmetry; exact E0|exact Hhead]. }
   split; [unfold r', resolve_flat; eapply enter_flat_leaf; [exact Hfa|apply node_leaf]|].
   split.
-  - intros v Hv. rewrite elook_eupd. cbn. unfold Fv in Hv.
-    destruct (Z.eqb v var) eqn:E0; [apply Z.eqb_eq in E0; contradiction|apply He; exact Hv].
+  - intros v Hv. unfold Fv in Hv.
+    assert (Hupd : elook v (eupd [(var, i)] e') = elook v e').
+    { rewrite elook_eupd. cbn. destruct (Z.eqb v var) eqn:E0; [apply Z.eqb_eq in E0; contradiction|reflexivity]. }
+    destruct strict.
+    + rewrite elook_eread. destruct (Z.eqb v var) eqn:E0; [apply Z.eqb_eq in E0; contradiction|].
+      rewrite Hupd. apply He. exact Hv.
+    + rewrite Hupd. apply He. exact Hv.
   - intros fuel. cbn [Nat.add srun]. rewrite Hfa. cbn [node_of n_kind n_jt fst snd kind_of e_kind e_jt].
     assert (Hrn : r' a new = Some new) by (unfold r', resolve_flat; eapply enter_flat_leaf; [exact Hfn|apply node_leaf]).
     rewrite Hrn. cbn [srun]. rewrite Hfn. cbn [node_of n_kind n_jt fst snd kind_of e_kind e_jt].
     rewrite elook_eupd. cbn [map fst snd zassoc]. rewrite Z.eqb_refl. rewrite Htab.
     assert (zmem s Ss = true) as -> by (apply zmem_In; exact HsS).
-    rewrite (resolve_old' new s Hs). reflexivity.
+    rewrite (resolve_old' new s Hs). destruct strict; reflexivity.
 Qed.
 
 Lemma nth_in_keys x b k t : efind g x = Some b -> nth_error (e_jt b) k = Some t -> Oldb t.
@@ -163,7 +169,7 @@ Proof. intros Hb Hn. eapply Hclosed; [exact Hb|eapply nth_error_In; exact Hn]. Q
 
 (* every block of the old graph is compatible with what it became *)
 Lemma hold : forall x, Oldb x -> exists b b', find h x = Some b /\ find h' x = Some b' /\
-  Compat h' r r' Fv Oldb x b b'.
+  Compat h' r r' strict Fv Oldb x b b'.
 Proof.
   intros x Hx. destruct (keys_efind g x Hx) as [b Hb]. destruct spec as [tbl [Hhead [Hp Ho]]].
   destruct (in_dec Z.eq_dec x preds) as [Hin|Hnin].
@@ -174,7 +180,7 @@ Proof.
     exists (node_of top (x, b)), (node_of top (x, b')).
     split; [apply find_h; exact Hb|]. split; [apply find_h'; [apply ne_top_old; exact Hx|exact H2]|].
     assert (Hedge : forall k t t', nth_error (e_jt b) k = Some t -> nth_error (e_jt b') k = Some t' ->
-                                   Edge h' r r' Fv Oldb x t t').
+                                   Edge h' r r' strict Fv Oldb x t t').
     { intros k t t' Ht Ht'. destruct (Hpos k t t' Ht Ht') as [Q1 Q2].
       destruct (in_dec Z.eq_dec t Ss) as [HS|HS].
       - destruct (Q2 HS) as [Ha [i [Hasg Htab]]]. eapply edge_bridge; eauto.
@@ -217,7 +223,7 @@ Proof.
     assert (Hb' : efind g' x = Some b) by (rewrite (Ho x (old_not_new x Hx) Hnin (old_not_name x Hx)); exact Hb).
     exists (node_of top (x, b)), (node_of top (x, b)).
     split; [apply find_h; exact Hb|]. split; [apply find_h'; [apply ne_top_old; exact Hx|exact Hb']|].
-    assert (Hedge : forall t, In t (e_jt b) -> Edge h' r r' Fv Oldb x t t).
+    assert (Hedge : forall t, In t (e_jt b) -> Edge h' r r' strict Fv Oldb x t t).
     { intros t Ht. apply edge_same. eapply Hclosed; eauto. }
     unfold Compat, node_of. cbn [n_kind n_jt fst snd]. unfold kind_of.
     pose proof (Hvar x b Hb) as Hv.
@@ -242,10 +248,22 @@ Qed.
 Theorem insert_cb_keeps_walks : forall n e e' ds tr st,
   (exists b, efind g n = Some b /\ e_kind b = EPlain 100) ->
   E Fv e e' ->
-  WTrace h r false n e ds tr st -> WTrace h' r' false n e' ds tr st.
+  WTrace h r strict n e ds tr st -> WTrace h' r' strict n e' ds tr st.
 Proof.
   intros n e e' ds tr st [b [Hb Hk]] He Hw.
-  apply (walk_refines h h' r r' Fv Oldb hold n e ds tr st Hw e').
+  apply (walk_refines h h' r r' strict Fv Oldb hold n e ds tr st Hw e').
+  - eapply efind_keys; eauto.
+  - exists (node_of top (n, b)), 1. split; [apply find_h; exact Hb|]. unfold node_of, kind_of. cbn. rewrite Hk. reflexivity.
+  - exact He.
+Qed.
+
+Theorem insert_cb_keeps_ctrace : forall n e e' ds,
+  (exists b, efind g n = Some b /\ e_kind b = EPlain 100) ->
+  E Fv e e' ->
+  CTrace h r strict n e ds -> CTrace h' r' strict n e' ds.
+Proof.
+  intros n e e' ds [b [Hb Hk]] He Hw.
+  apply (ctrace_refines h h' r r' strict Fv Oldb hold n e ds Hw e').
   - eapply efind_keys; eauto.
   - exists (node_of top (n, b)), 1. split; [apply find_h; exact Hb|]. unfold node_of, kind_of. cbn. rewrite Hk. reflexivity.
   - exact He.
